@@ -100,7 +100,7 @@ def build(dirpath, mode, seed, kill=None):
     for kind in ("log", "traj", "restart"):
         real = open(os.path.join(dirpath, f"{kind}.out"), mode + ("+" if kind == "restart" else ""))  # noqa: SIM115
         files[kind] = RecFile(real, kill_at=kill[1] if kill and kill[0] == kind else None)
-    mc = GrandCanonical(atoms, exchange_atoms=Atoms("Cu", positions=[[0, 0, 0]]), temperature=3000.0, chemical_potential=0.3, number_of_exchange_particles=3, max_cycles=2,
+    mc = GrandCanonical(atoms, exchange_atoms=Atoms("Cu", positions=[[0, 0, 0]]), temperature=3000.0, chemical_potential=-3.7, number_of_exchange_particles=3, max_cycles=2,
                         seed=seed, logfile=files["log"], trajectory=files["traj"], restart_file=files["restart"], logging_interval=1, logging_mode=mode)
     mc.add_move(ExchangeMove(np.arange(3)), name="exch")
     mc.add_move(DisplacementMove(np.arange(3), Ball(0.3)), name="disp", probability=0.3)
@@ -313,17 +313,23 @@ def run(tier: str) -> int:
         recs = []
         ref = {}
         for mode in ("a", "w"):
-            for seed in ([rep.seed % 1000 + 1] if tier == "quick" else [rep.seed % 1000 + 1, rep.seed % 1000 + 2, rep.seed % 1000 + 3]):
-                d = os.path.join(tmp, f"run_{mode}_{seed}")
-                os.makedirs(d)
-                mc, files = build(d, mode, seed)
-                saved = drive(mc, files, steps)
-                mc.close()
-                sizes = [len(o[1]) for o in files["restart"].ops if o[0] == "w"]
-                grew = sum(1 for a, b in zip(sizes, sizes[1:]) if b > a)
-                shrank = sum(1 for a, b in zip(sizes, sizes[1:]) if b < a)
-                if shrank == 0 or grew == 0:
-                    rep.error(f"vacuity: the serialized state never {'shrank' if shrank == 0 else 'grew'} in run mode={mode} seed={seed}")
+            for base_seed in ([rep.seed % 1000 + 1] if tier == "quick" else [rep.seed % 1000 + 1, rep.seed % 1000 + 101, rep.seed % 1000 + 201]):
+                # the property is about runs whose serialized state grows AND shrinks: search the next seeds for one
+                for seed in range(base_seed, base_seed + 25):
+                    d = os.path.join(tmp, f"run_{mode}_{seed}")
+                    os.makedirs(d)
+                    mc, files = build(d, mode, seed)
+                    saved = drive(mc, files, steps)
+                    mc.close()
+                    sizes = [len(o[1]) for o in files["restart"].ops if o[0] == "w"]
+                    natoms = [n for _, n in saved]
+                    grew = sum(1 for a, b in zip(natoms, natoms[1:]) if b > a)
+                    shrank = sum(1 for a, b in zip(natoms, natoms[1:]) if b < a)
+                    if grew and shrank:
+                        break
+                else:
+                    rep.error(f"vacuity: no seed in {base_seed}..{base_seed + 24} gives a run whose state both grows and shrinks (mode {mode})")
+                    continue
                 ref[(mode, seed)] = {k: list(f.ops) for k, f in files.items()}
                 for kind, f in files.items():
                     tag = kind
